@@ -12,7 +12,7 @@ func CSVDatabase$1
   props C08 C09 C10 C17
   refines parser.StopOnErr
   requires @writer r.output != nil
-  modifies ghost(bufSticky, sinkFailed, sinkPend)
+  modifies ghost(bufSticky, sinkFailed, sinkPend, csvLen, csvW, csvN, csvRow)
   ensures @sink [C17] BufStep(r.output) && r == old(r)
 
 // ---------------------------------------------------------------------------------------------
@@ -25,14 +25,23 @@ func NewCSVReporter returns (r)
   ensures @fresh r.output != nil && fresh(r.output) && r.outputTimeFormat == config.OutputTimeFormat
   ensures @sink [C17] bufSink == store(old(bufSink), r.output, payload(config.Output)) && bufSticky == store(old(bufSticky), r.output, false)
 
-// one row per (day, distinct food), in the day's order (C13: rows; the field encoding is the library's)
+// one row per (day, distinct food), in the day's order: the ISO date, the food's name exactly as it is, the
+// quantity with three decimals (C13). The fields are handed to encoding/csv, which does the RFC 4180 encoding.
 func (CSVReporter).Process returns (err)
   props C17 C08 C13
   requires @args ln != nil && r.output != nil
-  modifies ghost(bufSticky, sinkFailed, sinkPend)
+  modifies ghost(bufSticky, sinkFailed, sinkPend, csvLen, csvW, csvN, csvRow)
   ensures @sink [C17] BufStep(r.output)
   ensures @reports-loss [C17] err == nil ==> bufSticky[r.output] == old(bufSticky[r.output])
-  loop 1 { invariant @sink r == old(r) && ln == old(ln) && BufStep(r.output) && bufSticky[r.output] == old(bufSticky[r.output]) }
+  ensures @row-count [C13] err == nil ==> csvLen == old(csvLen) + len(ln.Elements)
+  ensures @rows [C13] forall k int :: {csvRow[k]} old(csvLen) <= k && k < csvLen ==> csvW[k] == r.output && csvN[k] == 3 && csvRow[k][0] == FormatTime(ln.Time, r.outputTimeFormat) && csvRow[k][1] == ln.Elements[k - old(csvLen)].Name && csvRow[k][2] == Sprintf1F("%0.3f", ln.Elements[k - old(csvLen)].Value)
+  ensures @old-rows [C13] forall k int :: {csvRow[k]} 0 <= k && k < old(csvLen) ==> csvRow[k] == old(csvRow[k]) && csvW[k] == old(csvW[k]) && csvN[k] == old(csvN[k])
+  loop 1 {
+    invariant @sink r == old(r) && ln == old(ln) && BufStep(r.output) && bufSticky[r.output] == old(bufSticky[r.output])
+    invariant @count csvLen == old(csvLen) + #i
+    invariant @rows forall k int :: {csvRow[k]} old(csvLen) <= k && k < csvLen ==> csvW[k] == r.output && csvN[k] == 3 && csvRow[k][0] == FormatTime(ln.Time, r.outputTimeFormat) && csvRow[k][1] == ln.Elements[k - old(csvLen)].Name && csvRow[k][2] == Sprintf1F("%0.3f", ln.Elements[k - old(csvLen)].Value)
+    invariant @old-rows forall k int :: {csvRow[k]} 0 <= k && k < old(csvLen) ==> csvRow[k] == old(csvRow[k]) && csvW[k] == old(csvW[k]) && csvN[k] == old(csvN[k])
+  }
 
 func (CSVReporter).Flush returns (err)
   props C17 C08
@@ -47,13 +56,22 @@ func NewCSVDatabaseReporter returns (r)
   ensures @fresh r.output != nil && fresh(r.output)
   ensures @sink [C17] bufSink == store(old(bufSink), r.output, payload(config.Output)) && bufSticky == store(old(bufSticky), r.output, false)
 
+// one row per entry of the record, in the record's order: recipe, element, amount with two decimals (C13)
 func (CSVDatabaseReporter).Process returns (err)
   props C17 C08 C13
   requires @args n != nil && r.output != nil
-  modifies ghost(bufSticky, sinkFailed, sinkPend)
+  modifies ghost(bufSticky, sinkFailed, sinkPend, csvLen, csvW, csvN, csvRow)
   ensures @sink [C17] BufStep(r.output)
   ensures @reports-loss [C17] err == nil ==> bufSticky[r.output] == old(bufSticky[r.output])
-  loop 1 { invariant @sink r == old(r) && n == old(n) && BufStep(r.output) && bufSticky[r.output] == old(bufSticky[r.output]) }
+  ensures @row-count [C13] err == nil ==> csvLen == old(csvLen) + len(n.Elements)
+  ensures @rows [C13] forall k int :: {csvRow[k]} old(csvLen) <= k && k < csvLen ==> csvW[k] == r.output && csvN[k] == 3 && csvRow[k][0] == n.Header && csvRow[k][1] == n.Elements[k - old(csvLen)].Name && csvRow[k][2] == Sprintf1F("%0.2f", n.Elements[k - old(csvLen)].Value)
+  ensures @old-rows [C13] forall k int :: {csvRow[k]} 0 <= k && k < old(csvLen) ==> csvRow[k] == old(csvRow[k]) && csvW[k] == old(csvW[k]) && csvN[k] == old(csvN[k])
+  loop 1 {
+    invariant @sink r == old(r) && n == old(n) && BufStep(r.output) && bufSticky[r.output] == old(bufSticky[r.output])
+    invariant @count csvLen == old(csvLen) + #i
+    invariant @rows forall k int :: {csvRow[k]} old(csvLen) <= k && k < csvLen ==> csvW[k] == r.output && csvN[k] == 3 && csvRow[k][0] == n.Header && csvRow[k][1] == n.Elements[k - old(csvLen)].Name && csvRow[k][2] == Sprintf1F("%0.2f", n.Elements[k - old(csvLen)].Value)
+    invariant @old-rows forall k int :: {csvRow[k]} 0 <= k && k < old(csvLen) ==> csvRow[k] == old(csvRow[k]) && csvW[k] == old(csvW[k]) && csvN[k] == old(csvN[k])
+  }
 
 func (CSVDatabaseReporter).Flush returns (err)
   props C17 C08
@@ -70,7 +88,7 @@ func CSVLog returns (err)
   props C08 C09 C10 C17
   requires @sink c.ReporterConfig.Output != nil && !typeis(c.ReporterConfig.Output, "*bufio.Writer") && !typeis(c.ReporterConfig.Output, "*encoding/csv.Writer") && TreeInv()
   modifies *
-  modifies ghost(cbLen, cbErr, cbNode, cbStop, cbRet, cbLineNo, cbLine, cbHeader, cbElems, cbNElems, scRd, scPos, privLo, evOf, accKey, accP, accN, accH, bufSink, bufSticky, sinkFailed, sinkPend, prLen, prSink, prArg, prArgs, tnodes, tdepth, tmax, tmapOf, jlen)
+  modifies ghost(cbLen, cbErr, cbNode, cbStop, cbRet, cbLineNo, cbLine, cbHeader, cbElems, cbNElems, scRd, scPos, privLo, evOf, accKey, accP, accN, accH, bufSink, bufSticky, sinkFailed, sinkPend, prLen, prSink, prArg, prArgs, csvLen, csvW, csvN, csvRow, tnodes, tdepth, tmax, tmapOf, jlen)
   let out := payload(c.ReporterConfig.Output)
   let lrd := payload(logStream)
   let cc := c.ParserConfig.CommentChar
@@ -84,7 +102,7 @@ func CSVDatabase returns (err)
   props C08 C09 C10 C17
   requires @sink cdc.ReporterConfig.Output != nil && !typeis(cdc.ReporterConfig.Output, "*bufio.Writer") && !typeis(cdc.ReporterConfig.Output, "*encoding/csv.Writer")
   calluse ParseStreamCallback#1 csvdb
-  modifies ghost(cbLen, cbErr, cbNode, cbStop, cbRet, cbLineNo, cbLine, cbHeader, cbElems, cbNElems, scRd, scPos, privLo, evOf, accKey, accP, accN, accH, bufSink, bufSticky, sinkFailed, sinkPend, prLen, prSink, prArg, prArgs, tnodes, tdepth, tmax, tmapOf, jlen)
+  modifies ghost(cbLen, cbErr, cbNode, cbStop, cbRet, cbLineNo, cbLine, cbHeader, cbElems, cbNElems, scRd, scPos, privLo, evOf, accKey, accP, accN, accH, bufSink, bufSticky, sinkFailed, sinkPend, prLen, prSink, prArg, prArgs, csvLen, csvW, csvN, csvRow, tnodes, tdepth, tmax, tmapOf, jlen)
   let out := payload(cdc.ReporterConfig.Output)
   let drd := payload(dbStream)
   let cc := cdc.ParserConfig.CommentChar
@@ -94,11 +112,11 @@ func CSVDatabase returns (err)
 
 // csv database-resolved: one row per (recipe, resolved element), recipes in strictly increasing order
 func CSVDatabaseResolved returns (err)
-  props C08 C09 C10 C17 C05
+  props C08 C09 C10 C17 C05 C13
   requires @sink cdc.ReporterConfig.Output != nil && !typeis(cdc.ReporterConfig.Output, "*bufio.Writer") && !typeis(cdc.ReporterConfig.Output, "*encoding/csv.Writer")
   calluse Resolve#1 any
   modifies *
-  modifies ghost(cbLen, cbErr, cbNode, cbStop, cbRet, cbLineNo, cbLine, cbHeader, cbElems, cbNElems, scRd, scPos, privLo, evOf, accKey, accP, accN, accH, bufSink, bufSticky, sinkFailed, sinkPend, prLen, prSink, prArg, prArgs, tnodes, tdepth, tmax, tmapOf, jlen)
+  modifies ghost(cbLen, cbErr, cbNode, cbStop, cbRet, cbLineNo, cbLine, cbHeader, cbElems, cbNElems, scRd, scPos, privLo, evOf, accKey, accP, accN, accH, bufSink, bufSticky, sinkFailed, sinkPend, prLen, prSink, prArg, prArgs, csvLen, csvW, csvN, csvRow, tnodes, tdepth, tmax, tmapOf, jlen)
   let out := payload(cdc.ReporterConfig.Output)
   let drd := payload(dbStream)
   let cc := cdc.ParserConfig.CommentChar
@@ -110,8 +128,11 @@ func CSVDatabaseResolved returns (err)
     invariant @copied forall j int :: {keys[j]} 0 <= j && j < #it ==> keys[j] == #ord[j]
   }
   ghost after call 1 Strings {
+    unfold SortedStr(elems(keys), len(keys))
     lassert @keys-perm forall p int :: {keys[p]} 0 <= p && p < len(keys) ==> keys[p] in nl && keys[p] == at(call, elems(keys))[PermBack(at(call, elems(keys)), elems(keys), p)]
     assert @keys forall p int :: {keys[p]} 0 <= p && p < len(keys) ==> keys[p] in nl
+    unfold StrictStr(elems(keys), len(keys))
+    assert @recipes-sorted [C13 C05] StrictStr(elems(keys), len(keys)) && len(keys) == len(nl)
     forget call
   }
   loop 2 {
